@@ -59,10 +59,6 @@ package remedies
 //@   loop 1 invariant[val]  forall(k, string, seen1[k] ==> headers[k] == ite(k == remedyConfig.RetryAfterHeader, updatedRetryAfter, cachedResponse.Headers[k]))
 //@   ensures[unmodified-when-absolute] result1 == nil && remedyConfig.RetryAfterType != sharedConfig.RetryAfterRelativeSeconds ==> result0 == cachedResponse.Headers
 //@   ensures[fresh-copy] result1 == nil && remedyConfig.RetryAfterType == sharedConfig.RetryAfterRelativeSeconds ==> result0 != nil && !old(allocated(result0)) && forall(k, string, in(k, result0) <==> in(k, cachedResponse.Headers)) && forall(k, string, in(k, result0) && k != remedyConfig.RetryAfterHeader ==> result0[k] == cachedResponse.Headers[k])
-//@   ensures[reduced0] result1 == nil && remedyConfig.RetryAfterType == sharedConfig.RetryAfterRelativeSeconds && in(remedyConfig.RetryAfterHeader, cachedResponse.Headers) ==> result0[remedyConfig.RetryAfterHeader] == updatedRetryAfter
-//@   ensures[reduced1] result1 == nil && remedyConfig.RetryAfterType == sharedConfig.RetryAfterRelativeSeconds ==> updatedRetryAfter == sprintf("%v", retryAfter - real(lapsedTime) / 1000000000.0)
-//@   ensures[reduced2] result1 == nil && remedyConfig.RetryAfterType == sharedConfig.RetryAfterRelativeSeconds ==> retryAfter == strconv.ParseFloat(cachedResponse.Headers[remedyConfig.RetryAfterHeader], 64)
-//@   ensures[reduced3] result1 == nil && remedyConfig.RetryAfterType == sharedConfig.RetryAfterRelativeSeconds ==> lapsedTime == now() - cachedResponse.CreationTime
 //@   ensures[reduced] result1 == nil && remedyConfig.RetryAfterType == sharedConfig.RetryAfterRelativeSeconds && in(remedyConfig.RetryAfterHeader, cachedResponse.Headers) ==> result0[remedyConfig.RetryAfterHeader] == sprintf("%v", strconv.ParseFloat(cachedResponse.Headers[remedyConfig.RetryAfterHeader], 64) - real(now() - cachedResponse.CreationTime) / 1000000000.0)
 
 //@ func (*ResponseBasedThrottlingPlugin).OnRequest
